@@ -129,7 +129,8 @@ def build_coq(prop="setup"):
             sh("coq_makefile -f _CoqProject -o Makefile", cwd=COQ, check=True)
         elif os.path.getmtime(os.path.join(COQ, "_CoqProject")) > os.path.getmtime(os.path.join(COQ, "Makefile")):
             sh("coq_makefile -f _CoqProject -o Makefile", cwd=COQ, check=True)
-        rc, out = sh("timeout 1500 make -j16", cwd=COQ)
+        target = "" if prop in ("setup", None) else " theories/Properties/%s.vo" % prop
+        rc, out = sh("timeout 1500 make -j16" + target, cwd=COQ)
         os.makedirs(BUILD, exist_ok=True)
         with open(os.path.join(BUILD, "coq-make.log"), "a") as f:
             f.write(out)
@@ -583,6 +584,78 @@ def check_C12(run, replay=None):
             pass
         if not found:
             run.violation(dict(cf, input=None), None, note="no-failing-input-found")
+    return run.finish()
+
+
+def check_C15(run, replay=None):
+    proof_ok = run.proof_side()
+    cases, impl, model, meta = run.run_vh(["-cases", replay] if replay else None)
+    n_eval = 0
+    bad = []
+    corr = []
+    located = unlocated = cli_n = 0
+    distinct = set()
+    for i, (c, im, mo) in enumerate(zip(cases, impl, model)):
+        ikv, mkv = parse_kv(im), parse_kv(mo)
+        n_eval += 1
+        f = c.split(" ")
+        distinct.add((f[2], ikv.get("impl"), ikv.get("outcome")))
+        if ikv.get("impl") != "clean":
+            bad.append((c, im, mo, "the generator crashed (%s)" % ikv.get("impl")))
+            continue
+        if "cli" in ikv:
+            cli_n += 1
+            is_err = ikv.get("outcome") == "error"
+            if ("panic" in ikv["cli"]) or (is_err and ikv["cli"] == "0") or (not is_err and ikv["cli"] != "0"):
+                bad.append((c, im, mo, "command exit status %s does not match the outcome" % ikv["cli"]))
+                continue
+        if ikv.get("outcome") == "error":
+            if "unlocated" in im.split(" "):
+                unlocated += 1
+            else:
+                located += 1
+        if mo.startswith("ERROR") or "model" not in mkv:
+            corr.append((c, im, mo, "model failed"))
+        elif mkv["model"] != "clean":
+            corr.append((c, im, mo, "the model predicts a panic where the generator is clean"))
+        elif mkv.get("inv") != "1":
+            corr.append((c, im, mo, "a document accepted by the loader violates the modelled loader post-condition"))
+        elif mkv.get("must") == "err" and ikv.get("outcome") != "error":
+            corr.append((c, im, mo, "the model's guard reports an error, the generator succeeds"))
+    for (c, im, mo, why) in sorted(bad, key=lambda t: len(t[0]))[:3]:
+        f = c.split(" ")
+        run.violation({"property": "C15", "case": c, "mutation": f[2], "at": f[3], "document": bytes.fromhex(f[4]).decode("utf-8", "replace")[:6000],
+                       "observed_impl": im[:1500], "model": mo, "broken": why}, c)
+    if corr and not bad:
+        c, im, mo, why = sorted(corr, key=lambda t: len(t[0]))[0]
+        f = c.split(" ")
+        run.violation({"property": "C15", "case": c, "mutation": f[2], "at": f[3], "impl": im[:1500], "model": mo, "input": None,
+                       "broken": "correspondence impl=model (nil-safety front): " + why, "mismatching_cases": len(corr)}, c,
+                      note="no-failing-input-found")
+    run.coverage.update({
+        "evaluations": n_eval, "distinct_nontrivial": len(distinct),
+        "correspondence_mismatches": len(corr), "property_mismatches": len(bad),
+        "errors_with_location": located, "errors_without_location": unlocated, "cli_runs": cli_n,
+        "rule": "every fixture spec, the map-fat spec and regression documents under structural mutation (delete a key, null a value, swap a "
+                "value's JSON type, drop `schema`/`items`, `content` parameters, non-string server-variable defaults, dangling $ref, unsupported "
+                "type/format), 30 mutants per base in quick and 900 in thorough; each mutant is loaded with the real loader in a worker subprocess "
+                "(a loader failure or loader panic = not accepted, outside the property) and generated under recover(); outcome class "
+                "{clean-ok, clean-error, panic, process death}; a sample also runs through the built command for its exit status; the extracted "
+                "nil-safety model runs on an abstraction of the same document (driver.ml abs_doc) and must predict no panic, must see its loader "
+                "post-condition hold, and where one of its guards fires the generator must report an error; non-trivial: distinct by (mutation "
+                "kind, outcome)",
+        "input_distribution": meta,
+        "samples": [{"case": cases[i][:160], "impl": impl[i][:200], "model": model[i]} for i in sorted({0, len(cases) // 2, len(cases) - 1})],
+        "trusted_base": TRUSTED_COMMON + [
+            "modelled, not verified: which optional OpenAPI fields the generator dereferences and where it guards them (Model/NilSafety.v is a "
+            "hand audit of specification/*.go; the mutation run is what checks it); the abstraction abs_doc in driver.ml; kin-openapi's loader "
+            "post-condition loader_inv (every clause exercised by the mutants)",
+            "text/template converting panics in render methods into errors; Go runtime"],
+    })
+    run.log("cases: %d accepted by the loader; crashes %d; correspondence mismatches %d; errors located/unlocated %d/%d; cli runs %d" % (
+        n_eval, len(bad), len(corr), located, unlocated, cli_n))
+    if not proof_ok:
+        run.violation(dict(getattr(run, "coq_failure", {}), input=None), None, note="no-failing-input-found")
     return run.finish()
 
 
@@ -1055,7 +1128,7 @@ def check_C17(run, replay=None):
         trusted=ROUTER_TRUSTED + ["http.CanonicalHeaderKey modelled for ASCII (Model/Serve.v canon_key), tied by these cases"])
 
 
-CHECKS = {"C12": check_C12, "C19": check_C19, "C13": check_C13, "C03": check_C03, "C04": check_C04, "C05": check_C05, "C06": check_C06, "C07": check_C07, "C08": check_C08, "C11": check_C11, "C16": check_C16, "C17": check_C17}
+CHECKS = {"C12": check_C12, "C15": check_C15, "C19": check_C19, "C13": check_C13, "C03": check_C03, "C04": check_C04, "C05": check_C05, "C06": check_C06, "C07": check_C07, "C08": check_C08, "C11": check_C11, "C16": check_C16, "C17": check_C17}
 
 
 def setup():
